@@ -167,6 +167,9 @@ pub(crate) fn write_buffered(
 
     buffer_with(|tl_buf| match tl_buf.try_borrow_mut() {
         Ok(mut buffer) => {
+            // a panic while formatting an earlier record (caught by the caller)
+            // can have left a part of that record behind
+            buffer.clear();
             (format_function)(&mut *buffer, now, record)
                 .unwrap_or_else(|e| eprint_err(ErrorCode::Format, "formatting failed", &e));
             buffer
